@@ -21,7 +21,9 @@ pub fn inverse_gamma_lr<T: MomTropFloat>(
         epsilon_tolerance.to_f64(),
     );
 
-    if res.is_nan() {
+    // a quantile of the gamma distribution is finite and strictly positive; anything else
+    // (NaN, a negative last iterate, -0.0) means the inversion failed
+    if !(res.is_finite() && res > 0.0) {
         Err(GammaError {})
     } else {
         Ok(a.from_f64(res))
